@@ -56,20 +56,23 @@ class Result:
 def term_info(solver_assertions):
     """(number of free variables, structural hash) of a list of z3 assertions"""
     import z3
-    seen = set(); vars_ = set(); h = hashlib.sha1()
-    todo = list(solver_assertions)
-    while todo:
+    seen = set(); nvars = 0
+    todo = list(solver_assertions[-3:])     # the goal (and its nearest assumptions) decide non-triviality
+    while todo and len(seen) < 4000:
         e = todo.pop()
         i = e.get_id()
         if i in seen:
             continue
         seen.add(i)
-        if z3.is_const(e) and e.decl().kind() == z3.Z3_OP_UNINTERPRETED:
-            vars_.add(e.decl().name())
-        todo.extend(e.children())
-    for a in solver_assertions:
-        h.update(a.sexpr().encode()[:20000])
-    return len(vars_), h.hexdigest()[:16]
+        n = e.num_args()
+        if n == 0:
+            if e.decl().kind() == z3.Z3_OP_UNINTERPRETED:
+                nvars += 1
+        else:
+            for k in range(n):
+                todo.append(e.arg(k))
+    h = hashlib.sha1(",".join(str(a.hash()) for a in solver_assertions).encode())
+    return nvars, h.hexdigest()[:16]
 
 
 def solve(res, name, assertions, timeout_ms=30000, want_model=True, logic=None, tactic=None, record=True):
